@@ -797,14 +797,21 @@ def struct_features(D):
 
 
 def trace_sig(cirq, ops):
-    """Per-resource subsequences (qubits, measurement/control keys): equal signatures = trace-equivalent sequences."""
+    """Per-resource subsequences: equal signatures = trace-equivalent sequences.  Resources are qubits and keys; on a
+    key, measurements are ordered with everything, controls only with measurements (two controls never conflict)."""
     sig = {}
     for o in ops:
         r = repr(o)
-        res = [('q', repr(q)) for q in o.qubits]
-        res += [('k', str(k)) for k in cirq.measurement_key_objs(o) | cirq.control_keys(o)]
-        for x in res:
-            sig.setdefault(x, []).append(r)
+        for q in o.qubits:
+            sig.setdefault(('q', repr(q)), []).append(r)
+        for k in cirq.measurement_key_objs(o):
+            sig.setdefault(('k', str(k)), []).append(('M', r))
+        for k in cirq.control_keys(o):
+            seq = sig.setdefault(('k', str(k)), [])
+            if seq and seq[-1][0] == 'C':
+                seq[-1] = ('C', tuple(sorted(seq[-1][1] + (r,))))
+            else:
+                seq.append(('C', (r,)))
     return sig
 
 
@@ -1065,6 +1072,10 @@ def spec_struct(ctx, cirq, V, op, D, obs, do_unroll=True):
         for name in ('unroll_circuit_op', 'unroll_circuit_op_greedy_earliest', 'unroll_circuit_op_greedy_frontier'):
             late = late_bound(cirq, flat)
             kind = unroll_defect(cirq, V, name, D, inner_first=(late and name != 'unroll_circuit_op'))
+            if kind.startswith('reorders') and zero:
+                ctx.violation(F7_SIG, F7_WHAT + f' ({name}(deep=True) drops the zero-repetition operation before scoping, '
+                              'mapped_circuit(deep=True) binds controls to its phantom keys)', dict(kind='unroll', rec=D, fn=name, defect=kind))
+                continue
             if kind.startswith('reorders') and name == 'unroll_circuit_op' and late:
                 ctx.violation(F18_SIG, F18_WHAT + f' (unroll_circuit_op(deep=True) vs mapped_circuit(deep=True) of {op!r})'[:1500],
                               dict(kind='unroll', rec=D, fn=name, defect=kind))
@@ -1132,14 +1143,17 @@ def spec_commute(ctx, cirq, V, op, D, g, m2, pm2, path, bind):
 
 
 def late_bound(cirq, flat):
-    seen, free = set(), set()
+    """Loop-carried key pattern: a control on key K is followed by a measurement of a key with the same name that it does
+    not read (another path, or K itself measured for the first time): scoping one loop body and repeating it (the
+    implementation) and scoping the repeated body (inner-first unrolling) may then bind the control differently (F18)."""
+    seen, ctl = set(), {}
     for op in flat.all_operations():
         for k in cirq.control_keys(op):
-            if str(k) not in seen:
-                free.add(k.name)
+            ctl.setdefault(k.name, set()).add((str(k), str(k) in seen))
         for k in cirq.measurement_key_objs(op):
-            if k.name in free:
-                return True
+            for full, bound in ctl.get(k.name, ()):
+                if full != str(k) or not bound:
+                    return True
             seen.add(str(k))
     return False
 
